@@ -239,7 +239,8 @@ def run_both(scratch, binary, cases, cfg_home=None, timeout=600, extra_env=None,
     """Run implementation and model on the same case file.
     Returns dict id -> {'impl': [...]|None, 'panic': str|None, 'model': [...]|None, 'oracles': {name: bool}, 'err': str|None}"""
     for i, c in enumerate(cases):
-        c.id = "k%d" % i
+        if c.id is None:
+            c.id = "k%d" % i
     cf = os.path.join(scratch.work, tag + ".txt")
     with open(cf, "w") as f:
         for c in cases:
@@ -267,6 +268,8 @@ def run_both(scratch, binary, cases, cfg_home=None, timeout=600, extra_env=None,
         if len(parts) < 1 or parts[0] not in res:
             continue
         r = res[parts[0]]
+        if len(parts) > 1 and parts[1] == "L":
+            continue
         if len(parts) > 1 and parts[1] == "P":
             r["panic"] = " ".join(parts[2:]) or "panic"
         elif len(parts) > 1 and parts[1] == "E":
